@@ -945,6 +945,133 @@ func queueByteAccounting(c *Ctx, rule string) {
 	if !okFull {
 		o.Fail(push.Pos(), "push has no byte-limit test on occupancy + len(payload)")
 	}
+	// the refusal as a decision: push refuses exactly when (count limit > 0 and len(chunks) >= count limit) or
+	// (byte limit > 0 and occupancy + len(payload) >= byte limit); a limit of zero or below means unlimited
+	d := &decisionRegion{start: entryPos(push), classify: func(in ssa.Instruction) string {
+		if ret, ok := in.(*ssa.Return); ok && in.Parent() == push {
+			if vs := retValAt(ret, 0); len(vs) == 1 {
+				if isConstBool(vs[0], false) {
+					return "refuse"
+				}
+				if isConstBool(vs[0], true) {
+					return "store"
+				}
+			}
+			return "other-return"
+		}
+		if isFieldStore(in, "vnet.chunkQueue", field) || isFieldStore(in, "vnet.chunkQueue", "chunks") {
+			return "store"
+		}
+		return ""
+	}}
+	d.collect()
+	// conditions inside predicate helpers bring their atoms only while the region is walked: walk until stable
+	for round := 0; round < 6; round++ {
+		n := len(d.Atoms)
+		if n > 12 {
+			break
+		}
+		for m := 0; m < 1<<n && len(d.Atoms) == n; m++ {
+			assign := make([]bool, n)
+			for i := range assign {
+				assign[i] = m&(1<<i) != 0
+			}
+			d.eval(assign)
+		}
+		if len(d.Atoms) == n {
+			break
+		}
+	}
+	recv := push.Params[0].Name()
+	occ, chunksSym := recv+"."+field, recv+".chunks"
+	var a1, a2, a3, a4 *atom
+	var cntSym, bytSym string
+	// the comparisons in either polarity (x < limit and limit <= x are one atom)
+	both := func(a atom) []atom {
+		if a.Eq {
+			return []atom{a}
+		}
+		return []atom{a, negAtom(a)}
+	}
+	for i := range d.Atoms {
+		for _, a := range both(d.Atoms[i]) {
+			if a.Eq || !a.Form.OK {
+				continue
+			}
+			f := a.Form
+			if len(f.Coef) == 2 && f.K == 1 {
+				cnt, lim := "", ""
+				for s2, cf := range f.Coef {
+					if cf == 1 && strings.Contains(s2, chunksSym) {
+						cnt = s2
+					} else if cf == -1 {
+						lim = s2
+					}
+				}
+				if cnt != "" && lim != "" {
+					v := a
+					cntSym, a2 = lim, &v
+				}
+			}
+			if f.Coef[occ] == 1 && len(f.Coef) == 3 && f.K == 1 {
+				neg, pos := "", 0
+				for s2, cf := range f.Coef {
+					if s2 == occ {
+						continue
+					}
+					if cf == -1 {
+						neg = s2
+					} else if cf == 1 {
+						pos++
+					}
+				}
+				if neg != "" && pos == 1 {
+					v := a
+					bytSym, a4 = neg, &v
+				}
+			}
+		}
+	}
+	for i := range d.Atoms {
+		for _, a := range both(d.Atoms[i]) {
+			if a.Eq || !a.Form.OK || len(a.Form.Coef) != 1 || a.Form.K != 0 {
+				continue
+			}
+			v := a
+			if cntSym != "" && a.Form.Coef[cntSym] == 1 {
+				a1 = &v
+			}
+			if bytSym != "" && a.Form.Coef[bytSym] == 1 {
+				a3 = &v
+			}
+		}
+	}
+	for _, a := range d.Atoms {
+		o.Site(push.Pos(), "branch atom of push: %s", a)
+	}
+	switch {
+	case a2 == nil:
+		o.Fail(push.Pos(), "push does not compare len(chunks) with the count limit (len >= limit)")
+	case a4 == nil:
+		o.Fail(push.Pos(), "push does not compare occupancy + len(payload) with the byte limit (sum >= limit)")
+	case a1 == nil:
+		o.Fail(push.Pos(), "push does not apply the count limit only when it is positive (limit > 0): zero and negative mean unlimited")
+	case a3 == nil:
+		o.Fail(push.Pos(), "push does not apply the byte limit only when it is positive (limit > 0): zero and negative mean unlimited")
+	default:
+		A1, A2, A3, A4 := *a1, *a2, *a3, *a4
+		if cex := d.compareWithSpec(func(val func(a atom) bool) string {
+			if (val(A1) && val(A2)) || (val(A3) && val(A4)) {
+				return "refuse"
+			}
+			return "store"
+		}); cex != "" {
+			o.Fail(push.Pos(), "push's full test differs from the rule: %s", cex)
+		}
+		for _, pr := range d.Problems {
+			o.Fail(push.Pos(), "%s", pr)
+		}
+	}
 }
 
 // ---------------------------------------------------------------------------------
@@ -1063,6 +1190,28 @@ func runC14(c *Ctx) {
 					o.Fail(cm.Instr.Pos(), "the loop is notified before the chunk is queued")
 				}
 			}
+		}
+	}
+
+	// every arrival is announced: after the chunk was queued every path to the return of the arrival function sends
+	// the notification (an arrival that is queued silently waits for the fallback timer when the loop has just
+	// emptied the queue)
+	for _, ps := range pushes {
+		isNotify := func(in ssa.Instruction) bool {
+			switch x := in.(type) {
+			case *ssa.Send:
+				return true
+			case *ssa.Select:
+				for _, st := range x.States {
+					if st.Dir == types.SendOnly {
+						return true
+					}
+				}
+			}
+			return false
+		}
+		if ok, bad := mustPassU(posAfter(ps), func(in ssa.Instruction) bool { return isReturn(in) && in.Parent() == arr }, isNotify); !ok {
+			o.Fail(bad.Pos(), "the arrival function can return after queueing the chunk without notifying the forwarding loop: the chunk waits for the next arrival or the fallback timer")
 		}
 	}
 
@@ -1573,6 +1722,14 @@ func routerDelayRules(c *Ctx, pc, rpush *ssa.Function) {
 					}
 				}
 			})
+			// on every path: a chunk that already carries a stamp (a clone handed on by the NAT of another router,
+			// an echoed chunk) is stamped again, the delay counts from the entry into this router
+			if ok, bad := mustPassU(entryPos(f), isReturn, func(in ssa.Instruction) bool {
+				s, ok := in.(*ssa.Store)
+				return ok && isFieldStore(s, "vnet."+tn, "timestamp")
+			}); !ok {
+				o.Fail(bad.Pos(), "setTimestamp can return without having stored the current time: a chunk that was stamped by another router keeps the older stamp and is forwarded before this router's delay has passed")
+			}
 		}
 	}
 }
